@@ -147,8 +147,8 @@ FACTS = {"C01": ["DispatchMerge"], "C02": ["DispatchMerge"], "C03": ["Formats", 
 # "what the Go source says now = what the model says", per property that rests on that source file
 TRANS = {"C01": ["TransMerge", "TransMatch", "TransUtil", "TransFilter"], "C02": ["TransMerge", "TransMatch"],
          "C06": ["TransValidate", "TransFinalize"], "C07": ["TransValidate", "TransMerge"], "C09": ["TransFinalize"],
-         "C10": ["TransMatch", "TransMerge"], "C11": ["TransUtil", "TransFilter", "TransOutput"],
-         "C12": ["TransFilter", "TransRepeat"], "C13": ["TransRepeat"], "C14": ["TransEncode", "TransEncode2"], "C15": ["TransBkld"], "C16": ["TransBkli"],
+         "C10": ["TransMatch", "TransMerge", "TransGet"], "C11": ["TransUtil", "TransFilter", "TransOutput"],
+         "C12": ["TransFilter", "TransRepeat"], "C13": ["TransRepeat", "TransGet"], "C14": ["TransEncode", "TransEncode2"], "C15": ["TransBkld"], "C16": ["TransBkli"],
          "C17": ["TransBklr", "TransMerge"], "C19": ["TransUtil", "TransMerge"]}
 for _p, _ms in TRANS.items():
     FACTS[_p] = FACTS.get(_p, []) + _ms
